@@ -40,6 +40,11 @@ Theorem C18_parent_is_prefix : forall s d, get_parent s = Some d -> exists rest,
 Proof. exact parent_is_prefix. Qed.
 Print Assumptions C18_parent_is_prefix.
 
+(* a bare (separator-free, possibly empty) name is its own name and has the empty parent *)
+Theorem C18_bare_name : forall n, sep_free n = true -> get_path_name n = n /\ get_parent n = Some [].
+Proof. exact bare_name. Qed.
+Print Assumptions C18_bare_name.
+
 (* totality: getParentDirectory never erases beyond the end of the string, whatever the input
    (empty, "/", "//", "a/", only separators, ...) *)
 Theorem C18_parent_total : forall s, get_parent s <> None.
